@@ -350,7 +350,8 @@ class Engine:
         if depth == 0:
             return expr
         if isinstance(expr, ast.Name) and expr.id in func.locals and expr.id not in func.all_params():
-            defs = self.local_defs(func, expr.id)
+            defs = [d for d in self.local_defs(func, expr.id)
+                    if not (isinstance(d, ast.Constant) and d.value is None)]
             if len(defs) == 1:
                 return self.expand(func, defs[0], depth - 1)
         return expr
